@@ -32,7 +32,9 @@ RULE = ('grid: construct in {open parens, parens, brackets, nested CASE, '
 ASSUMPTIONS = [
     'depth is capped at 2000 because grouping cost is cubic in depth; cells '
     'that hit the wall-clock watchdog are inconclusive and counted, never '
-    'violations',
+    'violations; a cell that uses up its CPU-time limit (RLIMIT_CPU, 60 s '
+    'quick / 400 s thorough, load-independent) neither returned nor raised '
+    'and is a violation (cpu-limit)',
 ]
 
 CONSTRUCTS = ['open_parens', 'parens', 'brackets', 'case', 'calls',
@@ -108,7 +110,18 @@ def judge(rec, cell, rc, res, err):
         case['import_limit'] = cell[4]
         rec.count('cells_imported_under_low_recursion_limit')
     rec.case()
-    if rc == 'watchdog' or rc in (-24, -9):   # SIGXCPU / killed
+    if rc == -24:
+        # SIGXCPU: the cell used up its CPU-time limit (60 s quick, 400 s
+        # thorough; CPU time, so independent of machine load; the slowest
+        # cell of the unchanged tree needs a few seconds). The call neither
+        # returned nor raised: not the outcome the property allows.
+        rec.monitor('outcome_class')
+        rec.violation('cpu-limit', case,
+                      'the call used up the cell\'s CPU-time limit without '
+                      'returning or raising (depth %d, entry %s)' % (d, e),
+                      key=(c, e, 'cpu'))
+        return
+    if rc == 'watchdog' or rc == -9:          # wall clock / killed
         rec.count('cells_watchdog_or_cpu_limit_(inconclusive)')
         rec.hist('inconclusive_cells', '%s/%d' % (c, d))
         return
